@@ -14,6 +14,9 @@ import sys
 import time
 
 ENV = dict(os.environ, CARGO_TARGET_DIR="/tmp/confirm_target", CARGO_NET_OFFLINE="true")
+# where the checks run and which repository they look at (a scratch copy keeps /verif and /repo free for other work)
+EVAL_VERIF = os.environ.get("SEED_VERIF", "/verif")
+EVAL_REPO = os.environ.get("SEED_REPO", "/repo")
 
 
 def sh(cmd, cwd, timeout=3000):
@@ -59,22 +62,23 @@ def confirm(name, patch, demo, dest, testcmd):
 
 
 def evaluate(name, patch, props):
-    st = subprocess.run(["git", "-C", "/repo", "status", "--porcelain"], stdout=subprocess.PIPE, text=True).stdout.strip()
-    assert st == "", "/repo is not clean: " + st
-    subprocess.run(["git", "-C", "/repo", "apply", patch], check=True)
+    st = subprocess.run(["git", "-C", EVAL_REPO, "status", "--porcelain"], stdout=subprocess.PIPE, text=True).stdout.strip()
+    assert st == "", EVAL_REPO + " is not clean: " + st
+    subprocess.run(["git", "-C", EVAL_REPO, "apply", patch], check=True)
     out = {}
     try:
         for p in props:
             t0 = time.time()
-            r = subprocess.run(["./check", p, "--tier", "quick"], cwd="/verif", stdout=subprocess.PIPE, stderr=subprocess.STDOUT, text=True)
+            r = subprocess.run(["./check", p, "--tier", "quick"], cwd=EVAL_VERIF, stdout=subprocess.PIPE, stderr=subprocess.STDOUT, text=True,
+                               env=dict(os.environ, VERIF_REPO=EVAL_REPO))
             viol = [l for l in r.stdout.splitlines() if l.startswith("VIOLATION")]
             first = next((l for l in r.stdout.splitlines() if l.startswith("  ") and viol), "")
             out[p] = {"exit": r.returncode, "violations": len(viol), "first": first.strip()[:300], "wall_s": round(time.time() - t0)}
             if r.returncode == 2:
                 out[p]["tool_error"] = r.stdout[-500:]
     finally:
-        subprocess.run(["git", "-C", "/repo", "checkout", "--", "."], check=True)
-        subprocess.run(["git", "-C", "/repo", "clean", "-fdq"], check=True)
+        subprocess.run(["git", "-C", EVAL_REPO, "checkout", "--", "."], check=True)
+        subprocess.run(["git", "-C", EVAL_REPO, "clean", "-fdq", "-e", "target"], check=True)
     print(json.dumps(out, indent=1))
     return out
 
